@@ -161,6 +161,13 @@ Theorem C01_fault_refused_initiation : forall tbl mtu i p pkts,
 Proof. exact fault_refused_initiation. Qed.
 Print Assumptions C01_fault_refused_initiation.
 
+(* ------------------------------------------------------- replayed initiation *)
+
+Theorem C01_replayed_initiation_is_dropped : forall st p ep,
+  step st (ReplayInit p ep) = (st, []).
+Proof. exact replayed_initiation_is_dropped. Qed.
+Print Assumptions C01_replayed_initiation_is_dropped.
+
 (* ------------------------------------------------------------------ non-vacuity *)
 
 Example C01_pad_values :
